@@ -31,8 +31,11 @@
            canvas may be trimmed vertically). *)
 From Coq Require Import List ZArith Bool Lia Arith.
 Import ListNotations.
-From TI Require Import lib.Term lib.Eff model.Screen model.ScreenUrwid gen.ScreenSkel
-  proofs.ScreenAlloc proofs.ScreenWalk proofs.ScreenGhost proofs.ScreenSync proofs.ScreenExamples.
+From TI Require Import lib.Term lib.Eff model.Screen model.ScreenUrwid model.ScreenSession model.ScreenCalls
+  gen.ScreenSkel
+  proofs.ScreenAlloc proofs.ScreenWalk proofs.ScreenGhost proofs.ScreenSync proofs.ScreenExamples
+  proofs.ScreenSessionProofs proofs.ScreenSessionSrc.
+From TI Require gen.ZIndexSrc proofs.ZIndexSrcTie.
 
 (** For EVERY history of widget constructions ([ANew], with any choice of the freed index
     that [set.pop()] returns) and finalisations ([ADel], effective once per widget): the
@@ -162,3 +165,129 @@ Theorem C18_cleared_after_clear :
   t_plcs (flushed konsole (run H konsole true lines (ops ++ [OClear]) world_init)) = [].
 Proof. exact cleared_after_clear_lemma. Qed.
 Print Assumptions C18_cleared_after_clear.
+
+(** ** Every way the screen is started and stopped (model/ScreenSession.v)
+
+    The terminal has TWO screen buffers and graphics placements belong to the buffer they
+    were made on ([bstep]: entering the alternate buffer shows a fresh buffer, leaving it
+    shows the main buffer again with ITS placements; every other command acts on the visible
+    buffer).  [start_session] / [stop_session] are _start / _stop with urwid's
+    [alternate_buffer] parameter.
+
+    For BOTH values of the flag, ANY terminal [t] (either buffer shown, any placements on
+    either) and any state of the screen, when the kitty protocol is supported:
+    after _start the buffer the user sees holds no placement; after _stop the buffer that was
+    shown while the screen ran holds none; after clear() (flushed) the visible buffer holds
+    none; _start and _stop change the canvas disguise; and neither what the library writes nor
+    its state depends on the flag (they are those of [C18_cleared_on_start_stop_clear]'s
+    streams). *)
+Theorem C18_cleared_on_start_stop_clear_both_modes : forall konsole alt inner inner1 inner2 s t,
+  forallb no_place inner = true -> forallb no_place inner1 = true -> forallb no_place inner2 = true ->
+  vis_plcs (bexec konsole t (fst (start_session true alt inner s))) = []
+  /\ buf_plcs (b_alt t) (bexec konsole t (fst (stop_session true alt inner1 inner2 s))) = []
+  /\ vis_plcs (bexec konsole t (map BT (fst (clear_stream true s)))) = []
+  /\ s_cdis (snd (start_session true alt inner s)) <> s_cdis s
+  /\ s_cdis (snd (stop_session true alt inner1 inner2 s)) <> s_cdis s
+  /\ bstoks (fst (start_session true alt inner s)) = fst (start_stream true inner s)
+  /\ snd (start_session true alt inner s) = snd (start_stream true inner s)
+  /\ bstoks (fst (stop_session true alt inner1 inner2 s)) = fst (stop_stream true true (inner1 ++ inner2) s)
+  /\ snd (stop_session true alt inner1 inner2 s) = snd (stop_stream true true (inner1 ++ inner2) s).
+Proof. exact cleared_modes_lemma. Qed.
+Print Assumptions C18_cleared_on_start_stop_clear_both_modes.
+
+(** The statement is about the unconditional clear: a _start that clears the images only
+    when the alternate buffer is used ([start_session_guarded]) leaves an image that was on
+    the terminal in view when the screen is started without it (while the code's _start
+    clears it, and with the alternate buffer the fresh buffer hides it) ... *)
+Theorem C18_start_clear_guarded_by_flag_refuted :
+  vis_plcs (bexec false stale_term (fst (start_session_guarded true false [KOther] scr_init))) <> []
+  /\ vis_plcs (bexec false stale_term (fst (start_session true false [KOther] scr_init))) = []
+  /\ vis_plcs (bexec false stale_term (fst (start_session_guarded true true [KOther] scr_init))) = [].
+Proof. exact guarded_start_refuted. Qed.
+Print Assumptions C18_start_clear_guarded_by_flag_refuted.
+
+(** ... and a _stop that clears only without the alternate buffer leaves the screen's images
+    on the alternate buffer (the code's _stop clears them and leaves the main buffer as the
+    other programs left it). *)
+Theorem C18_stop_clear_guarded_by_flag_refuted :
+  buf_plcs true (bexec false stale_alt_term (fst (stop_session_guarded true true [KOther] [KOther] scr_init))) <> []
+  /\ buf_plcs true (bexec false stale_alt_term (fst (stop_session true true [KOther] [KOther] scr_init))) = []
+  /\ main_plcs (bexec false stale_alt_term (fst (stop_session true true [KOther] [KOther] scr_init))) = [mk_plc 0 0 6 1 0].
+Proof. exact guarded_stop_refuted. Qed.
+Print Assumptions C18_stop_clear_guarded_by_flag_refuted.
+
+(** [C18_no_ghosts] over SESSIONS: from ANY terminal [t0] (images left by earlier commands,
+    by the application itself, by an earlier session ...), for every history of
+    - output of other programs while the screen is not started ([SPre], any tokens),
+    - start(alternate_buffer=b) for either b, stop(), any number of such cycles,
+    - a new screen object replacing the old one between two cycles ([SNewScreen]),
+    - redraws, clear()s and public clear_images() calls of the started screen,
+    whose steps are well-formed in the state they meet ([sess_wf]: as [ops_wf], and urwid's own
+    start/stop output places no image): after each redraw nothing is left in the output queue
+    and the placements the user sees are exactly the image lines of the view set just drawn.
+    (urwid addresses rows absolutely with the alternate buffer and relative to the row of the
+    cursor at start() without it; the model is stated with that row as row 0.) *)
+Theorem C18_sessions_no_ghosts :
+  forall (H : nat) (konsole : bool) (lines : view -> list (Z * Z * Z)) (kittyw : nat -> bool)
+         (t0 : bterm) (ops : list sess_op) (V : list view) (base : Z -> Z),
+  sess_wf H konsole lines kittyw (sworld_init t0) (ops ++ [SOp (ORedraw V base)]) ->
+  let sw := srun_code H konsole true lines (ops ++ [SOp (ORedraw V base)]) (sworld_init t0) in
+  w_queue (sw_w sw) = [] /\ forall p, In p (vis_plcs (sw_term sw)) <-> In p (plcs_of lines V).
+Proof. exact sessions_no_ghosts_lemma. Qed.
+Print Assumptions C18_sessions_no_ghosts.
+
+(** ... and in every reachable state of such a session: a start (either value of the flag)
+    leaves nothing in view whatever the terminal showed; a stop leaves nothing on the buffer
+    the screen ran on; a clear(), once flushed, leaves nothing in view. *)
+Theorem C18_sessions_cleared :
+  forall (H : nat) (konsole : bool) (lines : view -> list (Z * Z * Z)) (kittyw : nat -> bool)
+         (t0 : bterm) (ops : list sess_op),
+  sess_wf H konsole lines kittyw (sworld_init t0) ops ->
+  let sw := srun_code H konsole true lines ops (sworld_init t0) in
+  (forall alt inner, sw_started sw = false -> forallb no_place inner = true ->
+     vis_plcs (sw_term (sstep_code H konsole true lines sw (SStart alt inner))) = [])
+  /\ (forall i1 i2, sw_started sw = true -> forallb no_place i1 = true -> forallb no_place i2 = true ->
+        buf_plcs (sw_alt sw) (sw_term (sstep_code H konsole true lines sw (SStop i1 i2))) = [])
+  /\ (sw_started sw = true ->
+        t_plcs (flushed konsole (sw_w (sstep_code H konsole true lines sw (SOp OClear)))) = []).
+Proof. exact sessions_cleared_lemma. Qed.
+Print Assumptions C18_sessions_cleared.
+
+(** The CURRENT source of _start / _stop / clear (call skeletons [sk_start], [sk_stop],
+    [sk_clear] translated by harness/tx/tx_screen.py on every run; model/ScreenCalls.v):
+    along EVERY path (whatever the conditions tested, no call raising) _start calls
+    clear_images() after the base class' _start, _stop calls it before the base class' _stop,
+    clear() calls it; hence, on any terminal [term], whatever urwid's _start writes ([base]: it
+    may switch buffers), with [i1] [i2] [binner] [other] (what urwid's _stop / clear and any
+    other call write) placing no image: nothing in view after _start and clear(), nothing on
+    the buffer the screen ran on after _stop.  (A clear_images() under a condition — on
+    [self._alternate_buffer], say — fails [source_paths_ok]: proofs/ScreenSessionSrc.v
+    [source_analysis_rejects].) *)
+Theorem C18_cleared_on_start_stop_clear_source : forall k term other,
+  forallb no_place other = true ->
+  (forall base t, In t (traces sk_start) -> vis_plcs (bexec k term (trace_toks base other t)) = [])
+  /\ (forall mode i1 i2 t, forallb no_place i1 = true -> forallb no_place i2 = true -> In t (traces sk_stop) ->
+        buf_plcs (b_alt term) (bexec k term (trace_toks (base_stop_toks mode i1 i2) other t)) = [])
+  /\ (forall binner t, forallb no_place binner = true -> In t (traces sk_clear) ->
+        vis_plcs (bexec k term (trace_toks (map BT binner) other t)) = [])
+  /\ traces sk_start <> [] /\ traces sk_stop <> [] /\ traces sk_clear <> [].
+Proof. exact source_cleared_lemma. Qed.
+Print Assumptions C18_cleared_on_start_stop_clear_source.
+
+(** *** the z-index allocator tied to the source as a theorem (T): [UrwidImage._ti_get_z_index]
+    (counter branch: exhaustion test and successor 1, -1, 2, -2, ...) is translated from
+    [widget/_urwid.py] on every run into [gen/ZIndexSrc.v] by [harness/tx/tx_zindex.py] (which
+    also matches the free-set branch, the release in [__del__] and the class attributes
+    verbatim); for EVERY allocator state the model's [alloc] is that code *)
+Theorem C18_source_alloc :
+  forall pick s,
+    alloc pick s =
+    match pop_nth pick (a_free s) with
+    | Some (z, f') => (Some z, mk_alloc (a_next s) f')
+    | None => match TI.gen.ZIndexSrc.src_z_counter_step (a_next s) with
+              | None => (None, s)
+              | Some (z, nx) => (Some z, mk_alloc nx nil)
+              end
+    end.
+Proof. exact TI.proofs.ZIndexSrcTie.alloc_is_source. Qed.
+Print Assumptions C18_source_alloc.
